@@ -93,6 +93,7 @@ func actionID(i int) cache.ActionID {
 
 type putRec struct {
 	id   int
+	c    int // content index
 	sum  [32]byte
 	size int
 	seq  int
@@ -141,6 +142,27 @@ func (st *runState) checkLookup(how string, proc, id int, data []byte, e cache.E
 			return
 		}
 	}
+	// Narrow class for the one known defect (known_findings.json): the index
+	// entry is torn between two Puts under this id (output id of one, size of
+	// the other: a writer died inside the in-place rewrite) AND the data file
+	// of the first was cut to exactly that stale size; GetFile, which checks
+	// the size only, then serves a prefix.
+	if how == "getfile" {
+		for _, x := range st.puts {
+			if x.id != id || x.sum != [32]byte(e.OutputID) || int64(x.size) == e.Size {
+				continue
+			}
+			for _, y := range st.puts {
+				if y.id == id && int64(y.size) == e.Size && len(data) == y.size && y.size < x.size {
+					full := content(x.c, st.c.Contents[x.c%len(st.c.Contents)])
+					if bytes.Equal(full[:len(data)], data) {
+						st.fail("getfile-serves-prefix-after-torn-entry-and-truncated-data-file", "process %d: GetFile(id %d) returned a file holding the first %d of %d bytes stored by one Put; the index entry carries that Put's output id %x but the size %d of another Put under the same id (torn in-place rewrite), and the data file was truncated to exactly that size", proc, id, len(data), x.size, e.OutputID[:6], e.Size)
+						return
+					}
+				}
+			}
+		}
+	}
 	st.fail("lookup-wrong-bytes:"+how, "process %d: %s(id %d) yielded %d bytes (sha256 %x; index entry: output %x size %d) that no Put under this id was ever invoked with", proc, how, id, len(data), sum[:6], e.OutputID[:6], e.Size)
 }
 
@@ -158,7 +180,7 @@ func (st *runState) runProc(pi int, ops []Op) {
 		case "put", "putbytes":
 			data := content(op.C, st.c.Contents[op.C%len(st.c.Contents)])
 			st.seq++
-			st.puts = append(st.puts, putRec{id: op.ID, sum: sha256.Sum256(data), size: len(data), seq: st.seq})
+			st.puts = append(st.puts, putRec{id: op.ID, c: op.C, sum: sha256.Sum256(data), size: len(data), seq: st.seq})
 			if op.K == "put" {
 				out, size, err := c.Put(actionID(op.ID), bytes.NewReader(data))
 				if err == nil {
@@ -674,8 +696,43 @@ func (e *enumEngine) build(tier string) {
 				}
 			}
 		}
-		// truncation and removal of every file the fault-free writer leaves behind
 		files := fs.Walk()
+		// Pairs of faults: the writer is killed inside the in-place rewrite
+		// of an index entry (every byte around the size field, every 8th
+		// elsewhere; thorough: every byte) AND a data file is then truncated.
+		// A torn entry that still parses, or is "repaired" leniently, must
+		// not make a truncated data file look complete.
+		if len(base.Phases) == 3 {
+			for _, rec := range fs.Log {
+				if rec.Proc != wproc || rec.Kind != "write" || !strings.HasSuffix(rec.Path, "-a") {
+					continue
+				}
+				for k := 0; k <= rec.Len; k++ {
+					if tier != "thorough" && !(k >= 128 && k <= 158) && k%8 != 0 {
+						continue
+					}
+					for fi, f := range files {
+						if !strings.HasSuffix(f.Path, "-d") || f.Size == 0 {
+							continue
+						}
+						for _, l := range []int{0, 1, f.Size / 2, f.Size - 1} {
+							if l < 0 || l >= f.Size {
+								continue
+							}
+							c := base
+							c.Phases = append([]Phase(nil), base.Phases...)
+							c.Faults = []verifsim.Fault{{Kind: "crash_write", Proc: wproc, Op: rec.Op, Arg: int64(k)}}
+							ph := c.Phases[len(base.Phases)-2]
+							ph.After = []Env{{K: "trunc", File: fi, Pm: 0, Minus: -l}}
+							c.Phases[len(base.Phases)-2] = ph
+							c.Note = base.Note + fmt.Sprintf("; crash inside index write after %d bytes, then truncate %s to %d of %d", k, shortPath(f.Path), l, f.Size)
+							e.cases = append(e.cases, c)
+						}
+					}
+				}
+			}
+		}
+		// truncation and removal of every file the fault-free writer leaves behind
 		// fs is the disk at the very end (after the reader); the set of files
 		// after the writer phase is the same or smaller: indices beyond it wrap.
 		for fi, f := range files {
@@ -750,7 +807,7 @@ func (e *enumEngine) Minimize(raw json.RawMessage, still func(json.RawMessage) b
 
 func (e *enumEngine) Describe() batch.Description {
 	d := randomEngine{}.Describe()
-	d.Rule = "enumeration, not sampling: for each size class and each store scenario (fresh Put, rewrite of the same content, overwrite with same-size / other-size content, same content under a second id, PutBytes, Put+Trim after 6 days) the writer is killed before every file-system call it makes and inside every write after k bytes (k in {0,1,len/2,len-1,len}; thorough: ~100 prefixes per write, all prefixes of index entries), and every file it leaves is truncated to {0,1,len/2,len-1} (thorough: every length of index entries) or removed; a fresh process then looks the ids up with Get, GetFile+read and GetBytes, stores again and looks up again. Each case is distinct by construction (distinct fault or damage)."
+	d.Rule = "enumeration, not sampling (single faults, plus pairs 'writer killed inside the index-entry rewrite at byte k' x 'data file truncated'): for each size class and each store scenario (fresh Put, rewrite of the same content, overwrite with same-size / other-size content, same content under a second id, PutBytes, Put+Trim after 6 days) the writer is killed before every file-system call it makes and inside every write after k bytes (k in {0,1,len/2,len-1,len}; thorough: ~100 prefixes per write, all prefixes of index entries), and every file it leaves is truncated to {0,1,len/2,len-1} (thorough: every length of index entries) or removed; a fresh process then looks the ids up with Get, GetFile+read and GetBytes, stores again and looks up again. Each case is distinct by construction (distinct fault or damage)."
 	return d
 }
 
